@@ -8,7 +8,7 @@ ROOT = os.path.dirname(os.path.dirname(os.path.abspath(__file__)))
 CLAIMS = {
     "C12": dict(
         technique="exhaustive small-scope enumeration + rapid (mutated DFS listings) + native fuzz, differential against an executable specification",
-        text="Validator verdict and first-rejected index are compared with an independent ~20-line specification predicate on every sequence of length <=3 (quick) / <=4 (thorough) over 19 well- and ill-formed paths x {dir,file,delete} (exhaustive within the bound), on thousands of generated longer sequences (legal listings up to depth 46 with 0-3 mutations), and under coverage-guided fuzzing (thorough). ComparePath is compared with component-wise order and checked for the strict-total-order axioms on all pairs/triples of a 65-path set. Exhaustive within bounds, sampled beyond; no proof.",
+        text="Validator verdict and first-rejected index are compared with an independent ~20-line specification predicate on every sequence of length <=3 (quick) / <=4 (thorough) over 28 well- and ill-formed paths x {dir, file, delete, modified dir, modified file} (exhaustive within the bound), on thousands of generated longer sequences (legal listings up to depth 46 with 0-3 mutations), and under coverage-guided fuzzing (thorough). ComparePath is compared with component-wise order and checked for the strict-total-order axioms on all pairs/triples of a 65-path set. Exhaustive within bounds, sampled beyond; no proof.",
         note="Trusts harness.StreamSpec/CmpComponents as the meaning of the statement. Alphabet and length bounds as stated in evidence.",
         ref="4 C12"),
     "C20": dict(
@@ -29,12 +29,12 @@ CLAIMS = {
     "C01": dict(
         technique="rapid-generated (source tree, prior destination, option) triples run through the real Send/Receive pair over a harness stream; oracle = independent lstat snapshot vs the tree model",
         text="Tens of thousands of generated source trees and prior destinations (independent trees over a colliding name pool, or 1-5 model edits of the source; fresh, dirty and merge mode; on-disk and synthetic sources; differ metadata/none; owner-rewriting filter; stream capacities 0-64) are synchronised with the real sender and receiver; the destination is then observed with the harness's own lstat/readlink/xattr/sha256 walker and compared two-directionally with the model (path set, types, bytes, 12 mode bits, owner, link targets, device numbers, hard-link partition, ns mtimes, xattrs; merge: overlay with survivors inode-identical). Sampled, no proof.",
-        note="Main run: privileged receiver on tmpfs (last shard on ext4), one case in four through the leftovers of an aborted run; a sub-run executes both ends as uid 1000 in a chrooted sub-process. Trees include files with security.capability and non-root owners. Files with equal identity are given equal bytes (precondition of identity-based differencing). Error returns are counted, not judged (C04).",
+        note="Main run: privileged receiver on tmpfs (last shard on ext4), one case in four through the leftovers of an aborted run; a sub-run executes both ends as uid 1000 in a chrooted sub-process. Trees include files with security.capability and non-root owners. Files with equal identity are given equal bytes (precondition of identity-based differencing). Error returns are counted, not judged (C04). Sources that return their last bytes together with io.EOF; an id-shifting (non-idempotent) receiver filter; one case in ten with the destination on another file system.",
         ref="4 C01"),
     "C02": dict(
         technique="rapid-generated edit histories (stateful: sync, edit, re-sync ...) against the real Send/Receive; oracle = harness-side identity function over announced STATs and an independent snapshot, REQ log mapped through the STAT index",
         text="Thousands of histories (initial tree, then up to 4 rounds of 0-4 model edits of 16 kinds followed by a re-sync, differ metadata or none, with and without an owner-rewriting filter, on-disk and synthetic sources) are run through the real pair. For every re-sync the set of content requests observed on the wire must equal the set of regular non-link entries whose identity key (computed by the harness from the statement) differs or that are new; equal-key entries must keep inode, bytes, mode, owner and mtime; directories are updated in place; an all-equal re-sync must produce zero requests and zero notifications; the final state must equal the source. Sampled, no proof.",
-        note="The timing-dependent hard-link exception of the statement is modelled as a 'may' set (old link members whose named first member is deleted or replaced). A sub-run repeats 'transfer, then re-sync of the unchanged source' with both ends as uid 1000.",
+        note="The timing-dependent hard-link exception of the statement is modelled as a 'may' set (old link members whose named first member is deleted or replaced). A sub-run repeats 'transfer, then re-sync of the unchanged source' with both ends as uid 1000. Receiver filters include an id shift that is not idempotent.",
         ref="4 C02"),
     "C05": dict(
         technique="rapid-generated edit histories; oracle = replay of the notification log on a model of the old destination + harness identity function + digests recomputed from the STAT log and bytes read back",
@@ -44,17 +44,17 @@ CLAIMS = {
     "C06": dict(
         technique="rapid-generated source views x request scripts executed by an independent reference receiver against the real Send; protocol monitor over the complete packet log; termination decided by goroutine quiescence",
         text="The real sender is driven by a reference receiver written only from the protocol description (any subset/order of requests, eager requests racing the STAT stream, unpaced bursts of up to 300 requests on capacity-0..64 streams, slow reader, illegal requests; one case in four follows, in the same process, a Send that was cut off in the middle of a file). Every packet it emits is checked: STAT sequence equals the view's listing in component order followed by exactly one marker, per-id framing (payload concatenation = file bytes, exactly one terminator, nothing after, nothing unrequested), FIN echoed exactly once then success, illegal ids fail the call, progress callbacks monotone with one final call. Sampled schedules and scripts, no proof.",
-        note="Closed-loop pairing of fsutil's own two ends is avoided; the trusted peer is harness/refrecv.go (two-threaded or single-threaded); one case in four runs the sender over util.NewProtoStream behind an independent framing bridge. Requests for not-yet-announced ids and for link members are outside the domain.",
+        note="Closed-loop pairing of fsutil's own two ends is avoided; the trusted peer is harness/refrecv.go (two-threaded or single-threaded); one case in four runs the sender over util.NewProtoStream behind an independent framing bridge. Requests for not-yet-announced ids and for link members are outside the domain. One small case in six is a SubDirFS composite handed over unsorted.",
         ref="4 C06"),
     "C07": dict(
         technique="rapid-generated STAT sequences, chunkings and interleavings executed by an independent reference sender against the real Receive; protocol monitor over the packet log; on-disk check while the receiver waits for the FIN echo",
         text="The real receiver is driven by a reference sender written only from the protocol description (synthetic stats incl. hard-link layouts and special files, prior destinations with identity-equal files, chunkings from 1 byte to 1 MiB, drawn interleavings of ids, DATA racing later STATs, fan-out up to 1100 pending requests, early end of stream). Checked: each REQ names an already-announced regular non-link file whose identity differs, once; FIN only after marker and all terminators; at FIN time every file already holds exactly the bytes sent; success after echo+close, error on early end; final tree equals what was announced. Sampled, no proof.",
-        note="Trusted peer is harness/refsend.go. Hard-link timing exception as in C02. A sub-run runs the receiver as uid 1000 (chrooted sub-process) against the same reference sender.",
+        note="Trusted peer is harness/refsend.go. Hard-link timing exception as in C02. A sub-run runs the receiver as uid 1000 (chrooted sub-process) against the same reference sender. One script in four: single-threaded sender on a transport of capacity 0-1.",
         ref="4 C07"),
     "C19": dict(
         technique="rapid-generated trees x selectors x prior destinations through the real Send/Receive pair in metadata-only mode; own listing decoder, REQ log mapped through the STAT index, C01's snapshot oracle on the materialised subset",
         text="Generated trees (incl. a root or nested entry with the listing's own name, prefix-colliding directory names, listings from a few records to ~150 KiB, one stat larger than a 32 KiB chunk) are transferred with a drawn selector (none, all, files, directories, subsets closed under link source) into fresh and populated destinations that may hold an old listing file or (dangling) symlink of that name, merge on/off. The listing is decoded with an independent decoder and must equal the announced STATs in order; content requests must be exactly the selected regular files by their true STAT index; the destination minus the listing must equal the selected entries plus ancestors with stale entries removed; every materialised entry is notified once and nothing else is. Sampled, no proof.",
-        note="A root entry with the listing name that is a non-empty directory (or a hard-link source) is outside the domain; merge mode is checked for presence of selected entries only.",
+        note="A root entry with the listing name that is a non-empty directory (or a hard-link source) is outside the domain; merge mode is checked for presence of selected entries only. One case in six has the destination on another file system than TMPDIR.",
         ref="4 C19"),
     "C11": dict(
         technique="rapid-generated trees with hard-link groups x filter stacks through the real Send/Receive pair; stream specification + link-closure monitor on the STAT log, C01's snapshot oracle on the filtered view, walk/Open agreement",
@@ -69,12 +69,12 @@ CLAIMS = {
     "C13": dict(
         technique="rapid-generated trees x copy shapes x option sets through copy.Copy; differential against an independent snapshot of the source subtree with the options applied",
         text="copy.Copy is run on generated on-disk trees (hard-link groups, symlinks of all shapes, fifos, char and block devices, special mode bits, ns mtimes, xattrs) for the whole tree, a sub-directory, a single file, a single symlink (follow on/off) and a single special file, into a new name, a nested not-yet-existing path, the root or an existing directory, under every subset of {chown, octal mode, symbolic mode, utime, xattr handler} with a change notifier. The copy is observed with the harness's own lstat walker and compared two-directionally with the source subtree after applying the options (symbolic modes via the dchapes-mode dependency on the full source mode), including the hard-link partition, owner/timestamp of created parents and the exact multiset of notifier calls. Sampled, no proof.",
-        note="Meaning of symbolic mode strings is the dchapes-mode dependency's. tmpfs, privileged.",
+        note="Meaning of symbolic mode strings is the dchapes-mode dependency's. tmpfs, privileged. An existing destination root that stands for the copied directory must take its timestamp.",
         ref="4 C13"),
     "C15": dict(
         technique="rapid-generated (source tree, destination tree, arguments, options) against an executable overlay model written from the statement; repeat-application (idempotence) as a metamorphic relation",
         text="Source and destination trees over a 4-name universe (so every type pair collides) are combined with source arguments ('/', any entry, wildcards), destination arguments (existing directory/non-directory, new, nested new, trailing separator) and the options dir-contents / always-replace / wildcards. The harness's overlay model (destination selection, merge, replace, conflict => error with obstacle intact, always-replace) must agree with the real copy on success vs error and, on success, on the complete resulting tree; the same copy is then repeated and must agree with the model again and change nothing when its landing place is unchanged. A second sub-run states 'wildcard sources behave as the union of their matches' as a metamorphic relation for any destination argument: the wildcard copy must give the verdict and tree of copying its matches one by one. Sampled, no proof.",
-        note="Destination arguments through symlinks are C14's domain; metadata of merged directories and of created parents is unspecified; wildcard sources go to directory-like destinations and are not combined with hard-linked sources.",
+        note="Destination arguments through symlinks are C14's domain; metadata of merged directories and of created parents is unspecified; wildcard sources go to directory-like destinations and are not combined with hard-linked sources. Follow-links for single-path sources is modelled (the link's own name, the target's content).",
         ref="4 C15"),
     "C03": dict(
         technique="rapid-generated hostile packet scripts (legal STAT sequences with 0-3 mutations and packet injections) executed by a reference sender against the real Receive inside a chrooted sub-process; lstat-only snapshot of the whole jail; independent stream classification; native fuzz over the same generator in thorough",
